@@ -164,10 +164,13 @@ def twice (s : Style) : Except Err (Nat × Nat) :=
     | .error e => .error e
     | .ok (_, id2, _) => .ok (id1, id2)
 
-/-- DESIGN §6 reconnaissance reproduced: `NewStyle{NumFmt:165, DecimalPlaces:3, NegRed:true}` twice on
-a new workbook gives ids 1 and 2 -/
-theorem finding_idem_negred_decimal :
-    twice { zs with numFmt := 165, decimalPlaces := some 3, negRed := true } = .ok (1, 2) := by
+/-- fixed (`idem:numfmt-negred-or-decimal`; DESIGN §6 reconnaissance): `NewStyle{NumFmt:165,
+DecimalPlaces:3, NegRed:true}` twice on a new workbook gives id 1 both times — the lookup searches the
+format code `newNumFmt` stores (with decimals and `;[Red]`) instead of refusing every xf -/
+theorem negred_decimal_deduplicated :
+    twice { zs with numFmt := 165, decimalPlaces := some 3, negRed := true } = .ok (1, 1) ∧
+    twice { zs with numFmt := 2, negRed := true } = .ok (1, 1) ∧
+    twice { zs with customNumFmt := some "0.0".toList, decimalPlaces := some 5, negRed := true } = .ok (1, 1) := by
   decide +kernel
 
 /-- fixed (`idem:component-index-0`): what `setCellXfs` writes for a component index is what the
@@ -206,9 +209,10 @@ theorem numfmt_63_66_deduplicated :
     ∀ n ∈ [(63 : Int), 64, 65, 66], twice { zs with numFmt := n } = .ok (0, 0) := by
   decide +kernel
 
-/-- a fill of unknown type is dropped on creation but demanded on lookup -/
-theorem finding_idem_fill_unknown_type :
-    twice { zs with fill := ⟨['x'], 1, [], 0⟩ } = .ok (1, 2) := by
+/-- fixed (`idem:fill-unknown-type`): a fill type `NewStyle` creates no fill for is looked up like no
+fill: the default style, both times -/
+theorem fill_unknown_type_deduplicated :
+    twice { zs with fill := ⟨['x'], 1, [], 0⟩ } = .ok (0, 0) := by
   decide +kernel
 
 def boldFont : Font := ⟨true, false, false, [], [], 0, [], 0, none, 0, []⟩
@@ -224,8 +228,9 @@ def currencyDup : Except Err (Nat × Nat) :=
       | .error e => .error e
       | .ok (_, id3, _) => .ok (id2, id3)
 
-/-- a second definition sharing a currency format is never deduplicated: ids 2 and 3 -/
-theorem finding_idem_currency_duplicate : currencyDup = .ok (2, 3) := by
+/-- fixed (`idem:currency-duplicate-code`): a second definition sharing a currency format reuses the
+stored format code and is found again: id 2 both times -/
+theorem currency_shared_deduplicated : currencyDup = .ok (2, 2) := by
   decide +kernel
 
 def collide : Except Err (Nat × Nat × Option Str) :=
@@ -243,7 +248,7 @@ def collide : Except Err (Nat × Nat × Option Str) :=
 NO xf, whatever numFmtId the xf carries — for every registry, style and xf -/
 theorem currency_unregistered_never_matches (r : Reg) (s : Style) (xf : Xf) (code : Str)
     (hb : (builtIn s.numFmt).isSome = false) (hr : inRanges s.numFmt Facts.C17.getNumFmtRanges = false)
-    (hc : currency s.numFmt = some code) (hn : (numFmtList r).find? (·.code == code) = none)
+    (hc : currency s.numFmt = some code) (hn : (numFmtList r).find? (·.code == currencyCode code s) = none)
     (hcu : s.customNumFmt = none) :
     xfNumFmt (getNumFmtID r s) xf s = false := by
   have hid : getNumFmtID r s = Facts.C17.currencyUnregisteredId := by
@@ -305,13 +310,14 @@ theorem gradient_3stop_reregisters :
                            ⟨"gradient".toList, 0, ["112233".toList, "445566".toList], 2⟩) := by
   decide +kernel
 
-/-- an empty fill record (out-of-range pattern) reads back as `Fill{}` and re-registers as pattern 0 -/
-theorem finding_rereg_empty_fill :
+/-- fixed (`rereg:empty-fill-record`): an out-of-range pattern creates no fill record; the style
+reads back the default fill, and registering that definition again reads the same -/
+theorem invalid_fill_reregisters :
     reregFill { zs with fill := ⟨"pattern".toList, 19, ["112233".toList], 0⟩ } =
-      .ok (Fill.zero, ⟨"pattern".toList, 0, [], 0⟩) := by
+      .ok (⟨"pattern".toList, 0, [], 0⟩, ⟨"pattern".toList, 0, [], 0⟩) := by
   decide +kernel
 
-/-! ## idempotence for regular definitions -/
+/-! ## idempotence -/
 
 theorem parse_ok {s p : Style} (h : parseFormatStyleSet s = .ok p) : p = s := by
   unfold parseFormatStyleSet at h
@@ -320,14 +326,13 @@ theorem parse_ok {s p : Style} (h : parseFormatStyleSet s = .ok p) : p = s := by
     | (simp at h; done)
     | (injection h with h; exact h.symm)
 
-/-- **newstyle_idempotent** ("returns the same id when the same definition is registered again"):
-for every registry satisfying the invariant and every definition outside the classes that are open
-findings (`Regular`: no NegRed / DecimalPlaces ≠ 2 on a stored number format, no currency format
-whose code is already in numFmts, no fill of unknown type), registering the definition a second
-time returns the SAME id and leaves EVERY table unchanged — whether the first call found the
-definition or created it (components looked up or appended, ids taken from the `Count` fields) -/
+/-- **newstyle_idempotent** ("returns the same id when the same definition is registered again"),
+full strength: for every registry satisfying the invariant and EVERY definition, registering the
+definition a second time returns the SAME id and leaves EVERY table unchanged — whether the first
+call found the definition or created it (components looked up or appended, number format stored,
+reused or built in, apply flags, ids as list positions) -/
 theorem newstyle_idempotent {r r1 : Reg} {s s1 : Style} {id : Nat} (w : WF r)
-    (reg : Regular r (clampDecimal s) = true) (h : newStyle r s = .ok (r1, id, s1)) :
+    (h : newStyle r s = .ok (r1, id, s1)) :
     ∃ s2, newStyle r1 s = .ok (r1, id, s2) := by
   unfold newStyle at h
   cases hp : parseFormatStyleSet s with
@@ -350,34 +355,29 @@ theorem newstyle_idempotent {r r1 : Reg} {s s1 : Style} {id : Nat} (w : WF r)
         exact ⟨s3, by unfold newStyle; rw [hp]; simp only; rw [hg]⟩
       | none =>
         simp only at h
-        obtain ⟨t'', hf, _⟩ := found_after_create w reg hg h
+        obtain ⟨t'', hf, _⟩ := found_after_create w hg h
         exact ⟨t'', by unfold newStyle; rw [hp]; simp only; rw [hf]⟩
 
 /-- … and on every further repetition (the second call is a "found" call) -/
 theorem newstyle_idempotent_forever {r r1 : Reg} {s s1 : Style} {id : Nat} (w : WF r)
-    (reg : Regular r (clampDecimal s) = true) (h : newStyle r s = .ok (r1, id, s1)) (n : Nat) :
+    (h : newStyle r s = .ok (r1, id, s1)) (n : Nat) :
     (Nat.repeat (fun x => match newStyle x s with | .ok (x', _, _) => x' | .error _ => x) n r1) = r1 := by
-  obtain ⟨s2, h2⟩ := newstyle_idempotent w reg h
+  obtain ⟨s2, h2⟩ := newstyle_idempotent w h
   induction n with
   | zero => rfl
   | succ k ih => simp only [Nat.repeat, ih, h2]
 
-/-- the hypothesis is decidable and satisfiable (the definition of `idem_example`), and each part of
-it is needed: the `finding_idem_*` witnesses are exactly the definitions it excludes -/
-theorem regular_examples :
-    Regular initReg { zs with font := some boldFont, fill := ⟨"pattern".toList, 1, ["ff0000".toList], 0⟩,
-                              border := [⟨"left".toList, "00ff00".toList, 1⟩], protection := some (true, false),
-                              numFmt := 4 } = true ∧
-    Regular initReg { zs with numFmt := 165, decimalPlaces := some 3, negRed := true } = false ∧
-    Regular initReg { zs with fill := ⟨['x'], 1, [], 0⟩ } = false ∧
-    Regular initReg { zs with numFmt := 165 } = true := by
-  decide +kernel
+/-- idempotence over histories: in every registry reachable from `NewFile()`, any definition
+registered twice in a row gets the same id -/
+theorem newstyle_idempotent_reachable (ss : List Style) {r1 : Reg} {s s1 : Style} {id : Nat}
+    (h : newStyle (runNew initReg ss) s = .ok (r1, id, s1)) : ∃ s2, newStyle r1 s = .ok (r1, id, s2) :=
+  newstyle_idempotent (wf_reachable ss) h
 
 /-! ## read-back of a newly registered definition -/
 
 /-- **getstyle_newstyle** (created case; "NewStyle returns an id whose GetStyle definition equals the
-requested style, default-normalised"): for every registry with the invariant and EVERY definition
-(no `Regular` needed), when `NewStyle` issues a new id, `GetStyle` of that id is `readBase` — each
+requested style, default-normalised"): for every registry with the invariant and EVERY definition,
+when `NewStyle` issues a new id, `GetStyle` of that id is `readBase` — each
 requested component read back from the record built from it, defaults for the components not
 requested, alignment and protection as requested — followed by the number format `n` that
 `newNumFmt` chose. `readback_font`, `readback_fill`, `readback_border` give the components in normal
@@ -427,7 +427,8 @@ theorem readback_font (r : Reg) (t : Style) :
       | none => (r.fonts[0]?).map extractFont := readBase_font r t
 
 /-- fill read-back in normal form (`Spec.normFill`): valid pattern / gradient fills keep pattern
-index, all 17 shadings and their colours; invalid ones read `Fill{}`; none / unknown type read the default fill -/
+index, all 17 shadings and their colours; none / unknown type / out-of-range pattern / malformed
+gradient read the default fill (no fill record is created for them) -/
 theorem readback_fill (r : Reg) (t : Style) :
     (readBase r t).fill =
       match Spec.normFill t.fill with
